@@ -200,6 +200,8 @@ func runC02(c *Ctx, r *Report) {
 	defer c02r3(c, r)
 	defer c02r5(c, r)
 	defer c02r6(c, r)
+	defer c02r8(c, r)
+	defer c02r7(c, r)
 	defer c13r3(c, r) // workers of a cancelled scan must be gone before their slabs are handed out again (crash otherwise)
 	defer func() {
 		r.rule("C02-R4", "H + A (shared with C03-R2)", "P1", "slab-independent bound on the pattern length before the int16 score matrices (and the slab-size headroom of C03-R2)", "matching crashes (index out of range in the back-trace) for a very long pattern when no slab / a larger slab is used")
@@ -349,6 +351,8 @@ func runC03(c *Ctx, r *Report) {
 	c05r9(c, r) // the recurrence reads only cells of this call: boundary cells of shifted windows are initialised
 	c02r5(c, r) // 'over the whole line': the pre-filter window must not cut off upper-case occurrences
 	c13r3(c, r) // two scans must never fill the same score matrices at once
+	c02r8(c, r) // the scorer folds characters exactly as the loops that found the occurrence
+	c05r11(c, r) // the optimal algorithm is used whenever the line fits the (full-size) slab
 	mk := l.Fn("util", "MakeSlab")
 	r.curRule = "C03-R2"
 	nMk := 0
@@ -430,6 +434,7 @@ func runC05(c *Ctx, r *Report) {
 	c13r3(c, r)   // a cancelled scan joins its workers before the slabs are reused
 	c05r9(c, r)   // no score cell is read that this call did not write
 	c05r10(c, r)  // ... including the back-trace's look-ahead
+	c05r11(c, r)
 	c02r5(c, r)   // bytes vs runes: the byte-only pre-filter must not change the result
 	c04r3(c, r)   // order purity: merge must agree with the per-partition sort
 	c08r5(c, r)   // per-item tokens must not survive a change of --nth
@@ -475,10 +480,18 @@ func c05r3(c *Ctx, r *Report) {
 			if !ok {
 				continue
 			}
+			// one disjunct: `criterion == a` and `criterion == b` together are infeasible
+			here := map[int64]bool{}
 			for _, lt := range pc.decode(n) {
 				if k, ok := isCritCmp(lt.Atom); ok && lt.Val {
-					out[k] = true
+					here[k] = true
 				}
+			}
+			if len(here) > 1 {
+				continue
+			}
+			for k := range here {
+				out[k] = true
 			}
 		}
 		return out
